@@ -14,6 +14,7 @@ from ..rules.util import callee_name, cfg_of, node_exprs, nodes_where
 from ..tables import C08_RET_EXEMPT
 
 EXPLANATION = (
+    '(22) GUARD: ListBox.set_focus raises IndexError for an empty body before it parks the pending change and delegates to the walker. '
     '(21) GUARD: a parameter that is range-tested against a length and stored as the focus is first shown to be an integer - isinstance test whose failing edge raises, operator.index - unless the store goes through the MonitoredFocusList.focus property (before fix 54e7f14 SimpleListWalker.set_focus(0.5) stored the float and the ListBox then reported itself empty). '
     "Decided (necessary structural conditions of C08): (1) setter validation: in every focus_position setter (Pile, Columns, GridFlow, Frame, Overlay; Widget's default) the store of the "
     "focus state is dominated by a range / membership test whose failing edge raises IndexError, the three list containers share one body (sibling comparison) including the "
@@ -739,6 +740,36 @@ def rule_integral_position(ctx: Ctx) -> RuleResult:
     return rr
 
 
+def rule_listbox_empty_setter(ctx: Ctx) -> RuleResult:
+    """'an empty container ... raises IndexError for its position, as does assigning an invalid position': ListBox
+    delegates the position to its walker, but cannot leave the empty case to it - MonitoredFocusList ignores a focus
+    assignment while the list is empty, so SimpleFocusListWalker.set_focus() accepts anything then.  ListBox.set_focus
+    itself asks the walker for the current focus and raises IndexError when there is none, *before* it parks the
+    pending change and delegates (a parked (None, None, None) makes the next render raise TypeError)."""
+    p = ctx.p
+    rr = RuleResult("GUARD", "C08.22", "ListBox.set_focus raises IndexError for an empty body before it parks the pending focus change and delegates to the walker", floor=2)
+    fi = p.func("urwid.widget.listbox.ListBox.set_focus")
+    cfg = cfg_of(fi)
+    raises = [n for n in cfg.nodes if n.kind == "raisestmt" and "IndexError" in ast.unparse(n.ast)]
+    guards = []
+    for t in cfg.nodes:
+        if t.kind != "test":
+            continue
+        if not any(isinstance(c, ast.Compare) and isinstance(c.ops[0], ast.Is) and isinstance(c.comparators[0], ast.Constant) and c.comparators[0].value is None for c in ast.walk(t.ast)):
+            continue
+        if any(tg in raises for tg, lab in t.succ if lab == "T"):
+            guards.append(t)
+    acts = [n for n in cfg.nodes if n.ast is not None and ((isinstance(n.ast, ast.Assign) and any(isinstance(tg, ast.Attribute) and tg.attr == "set_focus_pending" for tg in n.ast.targets)) or any(isinstance(c, ast.Call) and isinstance(c.func, ast.Attribute) and c.func.attr == "set_focus" and "_body" in ast.unparse(c.func.value) for c in ast.walk(n.ast)))]
+    if not acts:
+        raise AnalysisError("ListBox.set_focus: the pending store / the delegation to the walker was not found")
+    for a in acts:
+        ok = bool(guards) and any(cfg.dominated(a, [g]) and a not in cfg.reachable_from_edges([(g, "T")]) for g in guards)
+        rr.inst(norm(a.stmt, 50), True, {"action": norm(a.stmt, 60), "after_the_empty_test": ok})
+        if not ok:
+            rr.add(finding("GUARD", fi, a.stmt, f"`{norm(a.stmt, 50)}` is reached without the test that the body has a focus at all (`... is None` -> raise IndexError): an empty ListBox over a SimpleFocusListWalker silently accepts any focus_position (the walker ignores focus assignments while it is empty) and keeps a pending (None, None, None) that makes the next render raise TypeError", construct="empty ListBox accepts a focus position"))
+    return rr
+
+
 def run(ctx: Ctx):
     p = ctx.p
     from ..rules import optcall, sentinel
@@ -770,6 +801,7 @@ def run(ctx: Ctx):
         rule_gridflow_focus_sync(ctx),
         rule_frame_focus_arg(ctx),
         rule_integral_position(ctx),
+        rule_listbox_empty_setter(ctx),
         optcall.run_optcall(p, "C08.13", ("urwid.widget",), floor=35),
     ]
 
@@ -779,6 +811,7 @@ _C = "urwid/widget/columns.py"
 _G = "urwid/widget/grid_flow.py"
 _F = "urwid/widget/frame.py"
 MUTANTS = [
+    Mut("listbox-set-focus-no-empty-test", "urwid/widget/listbox.py", "ListBox.set_focus", "        if focus_widget is None:\n            raise IndexError(\"Can't set focus, ListBox is empty\")\n", "", "GUARD|widget.listbox.ListBox.set_focus|empty ListBox accepts a focus position"),
     Mut("walker-accepts-float-position", "urwid/widget/listbox.py", "SimpleListWalker.set_focus", "        if not isinstance(position, int) or not 0 <= position < len(self):", "        if not 0 <= position < len(self):", "GUARD|widget.listbox.SimpleListWalker.set_focus|non-integral position stored as focus"),
     Mut("twin-walker-integrality-own-test", "urwid/widget/listbox.py", "SimpleListWalker.set_focus", "        if not isinstance(position, int) or not 0 <= position < len(self):\n            raise IndexError(f\"No widget at position {position}\")\n", "        if not isinstance(position, int):\n            raise IndexError(f\"No widget at position {position}\")\n        if not 0 <= position < len(self):\n            raise IndexError(f\"No widget at position {position}\")\n", twin=True),
     Mut("twin-walker-operator-index", "urwid/widget/listbox.py", "SimpleListWalker.set_focus", "        if not isinstance(position, int) or not 0 <= position < len(self):\n            raise IndexError(f\"No widget at position {position}\")\n", "        import operator\n\n        position = operator.index(position)\n        if not 0 <= position < len(self):\n            raise IndexError(f\"No widget at position {position}\")\n", twin=True),
